@@ -1,6 +1,7 @@
 mod common;
 mod c01;
 mod c02;
+mod c09;
 
 fn main() {
     std::panic::set_hook(Box::new(|_| {}));
@@ -18,6 +19,9 @@ fn main() {
         "c08-record" => c01::c08_record(rest),
         "c02-replay" => c02::replay(rest),
         "c02-record" => c02::record(rest),
+        "c09-replay" => c09::replay(rest),
+        "c09-predicates" => c09::predicates(rest),
+        "c09-record" => c09::record(rest),
         x => {
             eprintln!("unknown subcommand {}", x);
             std::process::exit(2);
